@@ -493,5 +493,10 @@ def cast_attempt_only(prog, f, body):
           "conversion_saves", "converts", "name", "bare_name", "operator=", "make_pair", "get_type", "operator basic_string_view"}
     for n in walk(body):
         if n.get("k") == "call" and n.get("name") not in OK:
+            # a small helper that only records the converted value (`if (saves.enabled) saves.saves.push_back(v);`) calls nothing that can reach user code
+            callee = prog.fn_by_id(f, n["fn"]) if n.get("fn") is not None else None
+            if callee is not None and callee.get("body") and callee is not f and str(callee.get("file", "")).startswith("include/") and \
+                    all(x.get("name") in OK for x in walk(callee["body"]) if x.get("k") == "call"):
+                continue
             return False
     return True
